@@ -4,5 +4,17 @@ import "bufio"
 
 // runFamily dispatches the non-graph families; returns false if unknown.
 func runFamily(fam string, w *bufio.Writer, r *rng, id, size int, opt string) bool {
-	return false
+	switch fam {
+	case "sig":
+		genSig(w, r, id, size)
+	case "vset":
+		genVset(w, r, id, size)
+	case "opts":
+		genOpts(w, r, id, size)
+	case "result":
+		genResult(w, r, id, size)
+	default:
+		return false
+	}
+	return true
 }
